@@ -7,14 +7,19 @@
             reference (Md5 / Sha1 / Sha256 / Sha512 / Streebog, HmacRFC over them) evaluated by TLC;
    plus the recorded "context is all zero after final" / "k_opad is all zero after final" flags must be 1.
 
-   IOEnv.TRACE names an ndjson file, one scenario per line:
-     hash: {"k":"hash","alg":A,"ups":[{"c":[bytes],"count":n,"buf":[bytes]},...],"dg":[..],"one":[..],"hex":[..],"zero":0|1}
-     hmac: {"k":"hmac","alg":A,"key":[..],"kopad":[..],"count0":n,"ups":[...],"mac":[..],"one":[..],"hex":[..],
-            "padzero":0|1,"zero":0|1}
+   IOEnv.TRACE names an ndjson file, one scenario per line.  A scenario is one input (message, chunking into update
+   calls, for HMAC a key) together with what EVERY build variant of the driver observed for it ("obs", one record per
+   build), so the reference is evaluated once per input and compared with all builds:
+     hash: {"k":"hash","alg":A,"cs":[[bytes],...],
+            "obs":[{"b":build,"ups":[{"count":n,"buf":[bytes]},...],"dg":[..],"one":[..],"hex":[..],"zero":0|1},...]}
+     hmac: {"k":"hmac","alg":A,"key":[..],"cs":[[bytes],...],
+            "obs":[{"b":build,"kopad":[..],"count0":n,"ups":[...],"mac":[..],"one":[..],"hex":[..],"padzero":0|1,"zero":0|1},...]}
    Every scenario is an independent behaviour  (tid, pos = 0) -> init -> one step per update -> final;  TLC explores
-   all of them (workers share the scenarios).  A step that disagrees with the recording sets bad to a key naming
-   WHAT disagreed, reports it with PrintT and violates NoBad; the scenario stops there.  The rig checks that the
-   number of distinct states equals the number of steps + scenarios, i.e. every event was consumed. *)
+   all of them (workers share the scenarios).  A step that disagrees with a recording sets bad to a key naming
+   WHAT disagreed and reports it (with the build) through PrintT; the scenario stops there (the others go on, so one
+   disagreement never hides another - that is why the cfg has no INVARIANT; NoBad is there for interactive use).  The
+   rig checks that the number of distinct states equals steps + scenarios minus the states cut off by the reports,
+   i.e. every event was consumed and no report was lost. *)
 EXTENDS Md5, Sha1, Sha256, Sha512, Streebog, Hmac, Json, IOUtils
 
 T == ndJsonDeserialize(IOEnv.TRACE)
@@ -38,61 +43,63 @@ BX(a, c) == a ^^ c
 
 Sc == T[tid]
 IsHmac == Sc.k = "hmac"
-NSteps(i) == Len(T[i].ups) + 2
+NSteps(i) == Len(T[i].cs) + 2
 Inner(s) == IF IsHmac THEN s.inner ELSE s
 
-Report(key, expected) == PrintT(ToJson([tid |-> tid, pos |-> pos + 1, bad |-> key, alg |-> Sc.alg, expected |-> expected]))
-\* first failing check of a list << <<ok, key, expected>>, ... >>, or "" when all hold
+Report(f) == PrintT(ToJson([tid |-> tid, pos |-> pos + 1, bad |-> f[2], alg |-> Sc.alg, build |-> f[4], expected |-> f[3]]))
+\* first failing check of a list << <<ok, key, expected, build>>, ... >>, or none
 RECURSIVE FirstBad(_, _)
-FirstBad(cs, i) == IF i > Len(cs) THEN << "", << >> >>
-                   ELSE IF cs[i][1] THEN FirstBad(cs, i + 1) ELSE << cs[i][2], cs[i][3] >>
+FirstBad(cs, i) == IF i > Len(cs) THEN << TRUE, "", << >>, "" >>
+                   ELSE IF cs[i][1] THEN FirstBad(cs, i + 1) ELSE cs[i]
 Verdict(cs) == LET f == FirstBad(cs, 1) IN
-               /\ bad' = f[1]
-               /\ (f[1] = "" \/ Report(f[1], f[2]))
+               /\ bad' = f[2]
+               /\ (f[2] = "" \/ Report(f))
+\* the checks C(o) of every build observation o, concatenated
+RECURSIVE ForObs(_, _, _)
+ForObs(C(_), i, acc) == IF i > Len(Sc.obs) THEN acc ELSE ForObs(C, i + 1, acc \o C(Sc.obs[i]))
 
 Init == /\ tid \in 1..Len(T) /\ pos = 0 /\ st = << >> /\ bad = ""
 
 DoInit ==
    /\ pos = 0
    /\ IF IsHmac
-      THEN LET h == HmInit(LAMBDA m : RefH(Sc.alg, m), BX, Param(Sc.alg), Sc.key) IN
-           /\ st' = h
-           /\ Verdict(<< << h.kopad = Sc.kopad, "hmac-init:k_opad", h.kopad >>,
-                         << h.inner.count = Sc.count0, "hmac-init:count", << h.inner.count >> >>,
-                         << HmInvInner(BX, LAMBDA m : RefH(Sc.alg, m), h), "spec:HmInvInner", << >> >> >>)
+      THEN LET h == HmInit(LAMBDA m : RefH(Sc.alg, m), BX, Param(Sc.alg), Sc.key)
+               C(o) == << << h.kopad = o.kopad, "hmac-init:k_opad", h.kopad, o.b >>,
+                          << h.inner.count = o.count0, "hmac-init:count", << h.inner.count >>, o.b >> >>
+           IN /\ st' = h
+              /\ Verdict(<< << HmInvInner(BX, LAMBDA m : RefH(Sc.alg, m), h), "spec:HmInvInner", << >>, "" >> >> \o ForObs(C, 1, << >>))
       ELSE st' = HsInit(Param(Sc.alg)) /\ bad' = ""
 
 DoUpdate ==
-   /\ pos >= 1 /\ pos <= Len(Sc.ups)
-   /\ LET ev == Sc.ups[pos]
-          s2 == IF IsHmac THEN HmUpdate(st, ev.c) ELSE HsUpdate(st, ev.c)
-          in == Inner(s2)
+   /\ pos >= 1 /\ pos <= Len(Sc.cs)
+   /\ LET s2 == IF IsHmac THEN HmUpdate(st, Sc.cs[pos]) ELSE HsUpdate(st, Sc.cs[pos])
+          ins == Inner(s2)
+          C(o) == << << ins.count = o.ups[pos].count, "update:count", << ins.count >>, o.b >>,
+                     << ins.buf = o.ups[pos].buf, "update:buffer", ins.buf, o.b >> >>
       IN /\ st' = s2
-         /\ Verdict(<< << in.count = ev.count, "update:count", << in.count >> >>,
-                       << in.buf = ev.buf, "update:buffer", in.buf >>,
-                       << HsInvCarry(in), "spec:HsInvCarry", << >> >> >>)
+         /\ Verdict(<< << HsInvCarry(ins), "spec:HsInvCarry", << >>, "" >> >> \o ForObs(C, 1, << >>))
 
 DoFinal ==
-   /\ pos = Len(Sc.ups) + 1
+   /\ pos = Len(Sc.cs) + 1
    /\ IF IsHmac
       THEN LET H(m) == RefH(Sc.alg, m)
-               h2 == HmFinal(H, st)
-               exp == HmacRFC(H, BX, Param(Sc.alg).B, Sc.key, st.msg)
+               exp == HmacRFC(H, BX, Param(Sc.alg).B, Sc.key, st.msg)      \* (HmFinal = HmacRFC is MCHmac's job)
+               C(o) == << << o.mac = exp, "hmac:streaming-mac", exp, o.b >>,
+                          << o.one = exp, "hmac:oneshot-mac", exp, o.b >>,
+                          << o.hex = HexOf(exp), "hmac:hex-mac", HexOf(exp), o.b >>,
+                          << o.padzero = 1, "hmac:k_opad-not-wiped", << >>, o.b >>,
+                          << o.zero = 1, "hmac:context-not-zero-after-final", << >>, o.b >> >>
            IN /\ st' = << >>
-              /\ Verdict(<< << h2.mac = exp, "spec:HmInvMac", exp >>,
-                            << Sc.mac = exp, "hmac:streaming-mac", exp >>,
-                            << Sc.one = exp, "hmac:oneshot-mac", exp >>,
-                            << Sc.hex = HexOf(exp), "hmac:hex-mac", HexOf(exp) >>,
-                            << Sc.padzero = 1, "hmac:k_opad-not-wiped", << >> >>,
-                            << Sc.zero = 1, "hmac:context-not-zero-after-final", << >> >> >>)
+              /\ Verdict(ForObs(C, 1, << >>))
       ELSE LET s2 == HsFinal(st)
                exp == RefH(Sc.alg, st.msg)
+               C(o) == << << o.dg = exp, "hash:streaming-digest", exp, o.b >>,
+                          << o.one = exp, "hash:oneshot-digest", exp, o.b >>,
+                          << o.hex = HexOf(exp), "hash:hex-digest", HexOf(exp), o.b >>,
+                          << o.zero = 1, "hash:context-not-zero-after-final", << >>, o.b >> >>
            IN /\ st' = << >>
-              /\ Verdict(<< << HsFlatten(s2.absorbed) = RefPad(Sc.alg, st.msg), "spec:HsFinal-vs-standard-padding", << >> >>,
-                            << Sc.dg = exp, "hash:streaming-digest", exp >>,
-                            << Sc.one = exp, "hash:oneshot-digest", exp >>,
-                            << Sc.hex = HexOf(exp), "hash:hex-digest", HexOf(exp) >>,
-                            << Sc.zero = 1, "hash:context-not-zero-after-final", << >> >> >>)
+              /\ Verdict(<< << HsFlatten(s2.absorbed) = RefPad(Sc.alg, st.msg) /\ HsInvZero(s2),
+                               "spec:HsFinal-vs-standard-padding", << >>, "" >> >> \o ForObs(C, 1, << >>))
 
 Next == /\ bad = "" /\ pos < NSteps(tid)
         /\ tid' = tid /\ pos' = pos + 1
